@@ -189,7 +189,7 @@ func ruleSingleWrite(c *core.Ctx, a *epAnchors) {
 	args := final.Common().Args
 	bcall, _ := core.CallResult(core.Canon(args[1]))
 	var buf ssa.Value
-	asm := fn       // the function that assembles the buffer
+	asm := fn                        // the function that assembles the buffer
 	var asmEnd ssa.Instruction = fin // where the assembled bytes leave it
 	if bcall != nil {
 		if f := bcall.Call.StaticCallee(); f != nil && f.Name() == "Bytes" && f.Signature.Recv() != nil && core.TypeIs(f.Signature.Recv().Type(), "bytes", "Buffer") {
